@@ -1550,6 +1550,8 @@ def _map_identifiers(identifiers: Sequence[str],
             remapped_identifiers = np.array([mapping[identifier] for identifier in identifiers])
         except KeyError as err:
             raise ValueError(f'Identifier {err} is missing from the identifier mapping') from err
+        if len(set(remapped_identifiers)) != len(remapped_identifiers):
+            raise ValueError('Identifier mapping is not one-to-one: mapped identifiers should be unique')
         sort_idx = np.argsort(remapped_identifiers)
 
     return remapped_identifiers, sort_idx
@@ -2449,6 +2451,10 @@ def extend(
             basis = Basis.ggm(d_per_qubit**N)
 
     # Sort the identifiers
+    if (len(set(c_oper_identifiers)) != len(c_oper_identifiers)
+            or len(set(n_oper_identifiers)) != len(n_oper_identifiers)):
+        raise ValueError('Identifiers of the extended pulse should be unique; check the identifier mappings')
+
     c_sort_idx = np.argsort(c_oper_identifiers)
     n_sort_idx = np.argsort(n_oper_identifiers)
 
